@@ -64,8 +64,14 @@ def intFns : Fns Int where
   invSize := 1
   pwnorm := fun v i => (v i).natAbs
   pdiv := fun a b i => a i / b i
-  simplex := fun r v i => max (v i - (v 0 - r)) 0
-  wsimplex := fun r v w i => max (v i - (v 0 - r) / w i) 0
+  sortAsc := id
+  rev := id
+  cumAvg := fun r v i => v i - r
+  lastNonneg := fun _ => 0
+  toIdx := Int.toNat
+  argsortDesc := fun _ _ => 0
+  take := fun v o i => v (o i).toNat
+  wtau := fun r v _ i => v i - r
   bidx := id
 
 def intPar : Par Int :=
@@ -114,13 +120,14 @@ theorem C10.frame {K : Type} [Add K] [Sub K] [Mul K] [Div K] [Neg K] [OfNat K 0]
     (F : Fns K) (P : Par K) (id : ProxId) : Frame (prog F P id) := by
   intro jk m ob hob b hb hne
   have hob' : ob = 0 ∨ ob = 1 := by omega
-  have h9 : b ≠ 10 ∧ b ≠ 11 ∧ b ≠ 12 ∧ b ≠ 13 ∧ b ≠ 14 ∧ b ≠ 15 := by omega
-  obtain ⟨h10, h11, h12, h13, h14, h15⟩ := h9
+  have h9 : b ≠ 10 ∧ b ≠ 11 ∧ b ≠ 12 ∧ b ≠ 13 ∧ b ≠ 14 ∧ b ≠ 15 ∧ b ≠ 16 ∧ b ≠ 17 ∧ b ≠ 18 := by
+    omega
+  obtain ⟨h10, h11, h12, h13, h14, h15, h16, h17, h18⟩ := h9
   cases id <;> (try rename_i a b) <;> (try cases a) <;> (try cases b) <;> (try rename_i a; cases a)
   all_goals rcases hob' with rfl | rfl
   all_goals
     simp [run, exec, prog, projL1, simplexStmt, l2Step, env0, Env.set, St.write, srcVals, cst,
-      ite_fst', ite_snd', ite_mem', ite_app', hne, h10, h11, h12, h13]
+      ite_fst', ite_snd', ite_mem', ite_app', hne, h10, h11, h12, h13, h14, h15, h16, h17, h18]
   all_goals (try split_ifs)
   all_goals simp_all
 
@@ -280,6 +287,31 @@ theorem C10.diagonal_alias_safe {K : Type} [Add K] [Mul K] [OfNat K 0] (hK : Com
     intro e he
     obtain ⟨i, hi, rfl⟩ := hmem e he
     exact hnb i hi
+
+/-- Remark on the strength of `alias_safe` (round-3 audit): a body whose ONLY write to `out` is
+its last statement is alias safe by the semantics of `Stmt.set` (all sources are read before the
+destination is overwritten) — for any function, element-wise or not. For such bodies
+(box with one bound, l2, ccL2Sq/l2Sq without element sigma AND g, ccL1L2, ccKLCE, huber, simplex,
+weighted sum constraint, scaling, lincomb, multiply, constant, zero) the theorem rests on the
+assumption "one NumPy/ODL call reads its inputs before writing `out`" plus the correspondence
+test; it has real content for the bodies that write `out` more than once (box with both bounds,
+ccL2Sq/l2Sq with element sigma and g, ccL1, l1, l1l2, linfty, ccLinfty, ccKL, sum constraint,
+power). -/
+theorem C10.last_write_only_is_alias_safe {K : Type} (G : Vec K → Vec K → Vec K) :
+    AliasSafe (Stmt.set .out [.x, .g] (fun a => G (a 0) (a 1))) := by
+  intro jk jk' m j
+  simp [run, exec, env0, St.write, srcVals]
+
+/-- Sensitivity of the `proj_simplex` model: if `x_sor` were a VIEW of `x`
+(`x.asarray().ravel()` instead of `.flatten()`), the in-place `x_sor.sort()` would write into
+the input — the variant violates `Frame`. -/
+theorem C10.simplex_with_view_writes_input :
+    ¬ Frame (Stmt.bind .xs .x ;; Stmt.set .xs [.xs]
+      (fun a => ({ intFns with sortAsc := fun v i => v i + 1 } : Fns Int).sortAsc (a 0))) := by
+  intro h
+  have := congrFun (h (fun _ _ => 0) (fun _ _ => 5) 1 (by omega) 0 (by omega) (by omega)) 0
+  revert this
+  simp [run, exec, env0, Env.set, St.write, srcVals]
 
 /-- The theorem has teeth: `ProximalL1._call` WITHOUT its copy guard is not alias safe
 (1-element witness over ℤ: x = 5, σλ = 2: aliased result 0, correct result 4). -/
